@@ -49,6 +49,7 @@ def main():
             m = re.search(r"(?:^|\s)(\.?/?[A-Za-z0-9_/.-]+)/%s" % re.escape(demos[0]), meta.get("demo", "").replace(src, ""))
             cands = [c for c in re.findall(r"([A-Za-z0-9_./-]+)/%s" % re.escape(demos[0]), meta.get("demo", "")) if not c.startswith("/tmp")]
             target = cands[0].lstrip("./") if cands else pkgs[0]
+            os.makedirs(os.path.join(wt, target), exist_ok=True)   # a demonstration may live in a package of its own
             for d in demos:
                 shutil.copy(os.path.join(src, d), os.path.join(wt, target, d))
             tags = ""
